@@ -328,7 +328,7 @@ func (g *g12) judge(topic, name string, slot uint64, expect int, run func() goss
 
 func runC12(b *fw.B) {
 	quick := fw.Quick(b.Tier)
-	n := 1
+	n := 2 // two views of different kinds per process: anything cached across configurations or chains would show
 	if !quick {
 		n = 6
 	}
